@@ -47,7 +47,9 @@ func (envli *envListVar) Get() any {
 	defer envli.Unlock()
 
 	value := os.Getenv(envli.envName)
-	if value == envli.cacheFor {
+	if value == envli.cacheFor && envli.cacheValue != nil {
+		// (The cache starts out empty: an unset or empty variable matches the
+		// zero cacheFor without anything having been cached.)
 		return envli.cacheValue
 	}
 	envli.cacheFor = value
